@@ -53,7 +53,7 @@ Section Loop.
   Variable div_freq : nat.                   (* structural_diversity_frequency_check; 0 stands for -1 (off) *)
   Variable div_min : nat.                    (* min(MIN_POP_SIZE, max_pop_size) *)
   Variable div_unique : nat -> list C -> list nat -> list nat.          (* values of the dict keyed by descriptive_id *)
-  Variable div_refill : nat -> list C -> list nat -> nat -> list C.     (* Individual(graph=choice(pop).graph) * n *)
+  Variable div_refill : nat -> list C -> list nat -> nat -> list C.     (* self._extend_population(unique, min_pop_size): mutants (evo) / copies (base class) of members *)
   Variable stop : nat -> cstate -> bool.     (* self.stop_optimization() *)
 
   Definition fresh_ids (h cells : list C) : list nat := seq (length h) (length cells).
@@ -294,7 +294,11 @@ Definition step_admits (o : ostep) : bool :=
          offspring descend from the previous population *)
       drawn (os_prev o ++ os_arch_prev o) (os_prev o) false && (length (os_next o) <=? os_max o)
   | KEvolveDiv =>
-      drawn (os_prev o ++ os_arch_prev o) (os_prev o) true && (length (os_next o) <=? Nat.max (os_max o) MIN_POP)
+      (* the refill of get_structure_unique_population goes through self._extend_population: verified
+         mutants of members of the de-duplicated population (EvoGraphOptimizer; these members may be
+         archive members brought in by elitism) or parentless copies (base class) *)
+      drawn (os_prev o ++ os_arch_prev o) (os_prev o ++ os_arch_prev o) true &&
+      (length (os_next o) <=? Nat.max (os_max o) MIN_POP)
   | KMutateAll =>
       drawn (os_prev o) (os_prev o) false && (length (os_next o) <=? length (os_prev o))
   | KSearch =>
